@@ -41,6 +41,7 @@ def dispatch (j : Json) : R Json := do
   | "isolation.run" => isolationRun j
   | "wsdl.exposed" => wsdlExposed j
   | "xsd.parse" => xsdParse j
+  | "xsd.serialize" => xsdSerialize j
   | _ => throw s!"unknown op {op}"
 
 def handleLine (line : String) : String :=
